@@ -161,6 +161,9 @@ type c03hdrAnalysis struct {
 	memo  map[*types.Func]*c03hdrSum
 	busy  map[*types.Func]bool
 	loops int // Connection-value loops found (vacuity)
+	// delFns: func-typed parameters of helpers (callback iterators) that are bound, at the call,
+	// to "delete this key from the outbound header" (a method value H.Del or a literal doing so)
+	delFns map[types.Object]bool
 }
 
 const (
@@ -473,6 +476,20 @@ func (a *c03hdrAnalysis) unitAt(f *flow.Func, H map[types.Object]bool, depth int
 	c := a.c
 	name := c03fnName(f)
 	isH := func(e ast.Expr) bool { return H[c03rootOf(f, e)] }
+	// delArg: call deletes its argument from the outbound header — H.Del(x), a method value of
+	// it held in a local, or a callback parameter bound to such a deletion
+	delArg := func(call *ast.CallExpr) (ast.Expr, bool) {
+		if len(call.Args) != 1 {
+			return nil, false
+		}
+		if op, recv := c03hdrOp(f, call); op == "Del" && isH(recv) {
+			return call.Args[0], true
+		}
+		if id, ok := ast.Unparen(call.Fun).(*ast.Ident); ok && a.delFns[c03obj(f, id)] {
+			return call.Args[0], true
+		}
+		return nil, false
+	}
 
 	// --- Connection-value loops and the tokens derived from them
 	type connLoop struct {
@@ -582,8 +599,7 @@ func (a *c03hdrAnalysis) unitAt(f *flow.Func, H map[types.Object]bool, depth int
 			}
 		}
 		for _, call := range calls(lp.body, false) {
-			if op, recv := c03hdrOp(f, call); op == "Del" && len(call.Args) == 1 && isH(recv) {
-				arg := call.Args[0]
+			if arg, ok := delArg(call); ok {
 				switch {
 				case c03mentions(f, arg, derived):
 					cl.del = call
@@ -626,7 +642,7 @@ func (a *c03hdrAnalysis) unitAt(f *flow.Func, H map[types.Object]bool, depth int
 			continue
 		}
 		for _, call := range calls(lp.body, false) {
-			if op, recv := c03hdrOp(f, call); op == "Del" && len(call.Args) == 1 && isH(recv) && lp.isElem(f, call.Args[0]) {
+			if arg, ok := delArg(call); ok && lp.isElem(f, arg) {
 				tables = append(tables, &tableLoop{rs: lp.stmt, keys: keys, del: call, it: newC03iter(f, lp.stmt, nil)})
 				break
 			}
@@ -670,6 +686,48 @@ func (a *c03hdrAnalysis) unitAt(f *flow.Func, H map[types.Object]bool, depth int
 		}
 		if len(H2) == 0 {
 			return nil, nil, nil
+		}
+		// callback iterator: a func argument that deletes its argument from the outbound header
+		for i, arg := range call.Args {
+			if i >= len(params) || params[i] == nil {
+				continue
+			}
+			if _, isFn := params[i].Type().Underlying().(*types.Signature); !isFn {
+				continue
+			}
+			fnExpr, _ := c03resolveLocal(f, arg)
+			isDel := false
+			switch x := fnExpr.(type) {
+			case *ast.SelectorExpr:
+				if sl := f.Info.Selections[x]; sl != nil && sl.Kind() == types.MethodVal && sl.Obj().Name() == "Del" && isH(x.X) {
+					if sig, _ := sl.Obj().Type().(*types.Signature); sig != nil && sig.Recv() != nil && c03isHeaderType(sig.Recv().Type()) {
+						isDel = true
+					}
+				}
+			case *ast.FuncLit:
+				if x.Type.Params != nil && len(x.Type.Params.List) == 1 && len(x.Type.Params.List[0].Names) == 1 {
+					p := f.Info.Defs[x.Type.Params.List[0].Names[0]]
+					for _, st := range x.Body.List {
+						if es, ok := st.(*ast.ExprStmt); ok {
+							if cl, ok := es.X.(*ast.CallExpr); ok && len(cl.Args) == 1 {
+								if op, recv := c03hdrOp(f, cl); op == "Del" && isH(recv) {
+									if id, ok := ast.Unparen(cl.Args[0]).(*ast.Ident); ok && c03obj(f, id) == p {
+										isDel = true
+									}
+								}
+							}
+						}
+					}
+				}
+			case *ast.Ident:
+				isDel = a.delFns[c03obj(f, x)] // handed on from an outer iterator
+			}
+			if isDel {
+				if a.delFns == nil {
+					a.delFns = map[types.Object]bool{}
+				}
+				a.delFns[params[i]] = true
+			}
 		}
 		return fo, H2, hf
 	}
@@ -725,8 +783,8 @@ func (a *c03hdrAnalysis) unitAt(f *flow.Func, H map[types.Object]bool, depth int
 			}
 		},
 		OnCall: func(st *flow.State, call *ast.CallExpr, callee types.Object, deferred bool) {
-			if op, recv := c03hdrOp(f, call); op == "Del" && len(call.Args) == 1 && isH(recv) {
-				if k, ok := c03constKey(f, call.Args[0]); ok {
+			if arg, ok := delArg(call); ok {
+				if k, ok := c03constKey(f, arg); ok {
 					st.Set("ev:del:"+k, flow.True)
 				}
 				for _, t := range tables {
